@@ -36,6 +36,12 @@ MoveaxisCases(sh) == [op: {"moveaxis"}, shape: {sh}, src: AxesBad(Nd(sh)), dst: 
 SwapaxesCases(sh) == [op: {"swapaxes"}, shape: {sh}, a1: Axes(Nd(sh)), a2: AxesBad(Nd(sh))]
 SqueezeCases(sh)  == [op: {"squeeze"}, shape: {sh}, ax: Axes(Nd(sh)) \cup {None}]
 ExpandCases(sh)   == [op: {"expand_dims"}, shape: {sh}, ax: AxesBad(Nd(sh) + 1)]
+                     \cup [op: {"expand_dims_t"}, shape: {sh},
+                           axs: {<<>>} \cup {<<x>> : x \in Axes(Nd(sh) + 1)}
+                                \cup (Axes(Nd(sh) + 2) \X AxesBad(Nd(sh) + 2))
+                                \cup {<<0, 1, 2>>, <<-1, 0, 2>>, <<0, -1, -2>>}]
+                     \cup [op: {"squeeze_t"}, shape: {sh}, axs: {<<>>} \cup (Axes(Nd(sh)) \X Axes(Nd(sh)))]
+                     \cup [op: {"atleast"}, shape: {sh}, k: 1..3]
 FlipCases(sh)     == [op: {"flip"}, shape: {sh}, ax: AxesBad(Nd(sh)) \cup {None}]
 Rot90Cases(sh)    == IF Nd(sh) < 2 THEN {}
                      ELSE {c \in [op: {"rot90"}, shape: {sh}, k: -1..4, a1: Axes(Nd(sh)), a2: Axes(Nd(sh))] :
@@ -84,16 +90,21 @@ RelCases(op, sh) ==
          : d \in {d \in DOMAIN sh : sh[d] >= 1}}
 
 RepeatCases(sh) == UNION {[op: {"repeat"}, shape: {sh}, r: 0..3, ax: {d - 1, d - 1 - Nd(sh)}] : d \in DOMAIN sh}
-TileCases(sh)   == [op: {"tile"}, shape: {sh},
-                    reps: {<<0>>, <<1>>, <<2>>, <<3>>, <<2, 1>>, <<1, 2>>, <<2, 2>>, <<0, 2>>}
-                          \cup (IF Size(sh) <= 8 THEN {<<2, 1, 2>>} ELSE {})]
+\* reps of every length 0 .. ndim + 2 (NumPy prepends axes when reps is longer than the rank - also when every
+\* rep is 1 and "nothing is repeated"); results bounded to 150 cells
+RECURSIVE SeqsOfLen(_, _)
+SeqsOfLen(S, k) == IF k = 0 THEN {<<>>} ELSE {<<x>> \o r : x \in S, r \in SeqsOfLen(S, k - 1)}
+TileReps(sh) == UNION {SeqsOfLen(IF k <= Nd(sh) THEN 0..3 ELSE 0..2, k) : k \in 0..(Nd(sh) + 2)}
+TileCases(sh)   == {c \in [op: {"tile"}, shape: {sh}, reps: TileReps(sh)] :
+                      Size(sh) * ProdSeq([j \in DOMAIN c.reps |-> IF c.reps[j] = 0 THEN 1 ELSE c.reps[j]]) <= 150}
 \* targets of broadcast_to: every size-1 axis may grow, axes may be prepended
 RECURSIVE Grow(_)
 Grow(sh) == IF sh = <<>> THEN {<<>>}
             ELSE {<<e>> \o r : e \in (IF Head(sh) = 1 THEN {1, 3} ELSE {Head(sh)}), r \in Grow(Tail(sh))}
 BroadcastCases(sh) ==
   [op: {"broadcast_to"}, shape: {sh},
-   tgt: {p \o g : p \in {<<>>, <<2>>, <<1, 2>>}, g \in Grow(sh)} \cup {[sh EXCEPT ![1] = sh[1] + 1], Tail(sh)}]
+   tgt: {p \o g : p \in {<<>>, <<1>>, <<2>>, <<1, 1>>, <<1, 2>>, <<2, 1>>}, g \in Grow(sh)}
+        \cup {[sh EXCEPT ![1] = sh[1] + 1], Tail(sh)}]
 TriCases(sh)  == IF Nd(sh) < 2 THEN {} ELSE [op: {"tril", "triu"}, shape: {sh}, k: {-5, -2, -1, 0, 1, 2, 5}]
 DiffCases(sh) == UNION {[op: {"diff"}, shape: {sh}, n: 0..3, ax: {d - 1, d - 1 - Nd(sh)}] : d \in DOMAIN sh}
 
@@ -128,6 +139,10 @@ BlockCases(sh) ==
         ELSE IF nd = 1
         THEN [op: {"block2"}, shape: {sh}, rows: {<< <<sh, <<2>> >>, << <<sh[1] + 2>> >> >>, << <<sh>>, <<sh>> >>}]
         ELSE {})
+  \* nesting depth alone changes the rank: [[a]] and [[[a]]] are 2-d / 3-d
+  \cup [op: {"block2"}, shape: {sh}, rows: {<< <<sh>> >>}]
+  \cup [op: {"block3"}, shape: {sh}, planes: {<< << <<sh>> >> >>, << << <<sh>> >>, << <<sh>> >> >>,
+                                               << << <<sh, sh>> >> >>, << << <<sh>>, <<sh>> >> >>}]
 
 OpCases(op, sh) ==
   IF Nd(sh) = 0 THEN {} ELSE
@@ -155,6 +170,7 @@ OpCases(op, sh) ==
 \* the shapes of every input array a case mentions
 InputShapes(c) == IF c.op \in {"concatenate", "stack", "block1"} THEN {c.shapes[k] : k \in DOMAIN c.shapes}
                   ELSE IF c.op = "block2" THEN {FlattenSeq(c.rows)[k] : k \in DOMAIN FlattenSeq(c.rows)}
+                  ELSE IF c.op = "block3" THEN {FlattenSeq(FlattenSeq(c.planes))[k] : k \in DOMAIN FlattenSeq(FlattenSeq(c.planes))}
                   ELSE {c.shape}
 AllOpCases == UNION {OpCases(op, sh) : op \in Ops, sh \in Shapes}
               \cup UNION {RelCases(op, sh) : op \in Ops \cap {"shuffle", "take"}, sh \in WideShapes}
@@ -192,20 +208,23 @@ CellCount == (IsOp /\ ~exp.err) => Len(exp.cells) = Size(exp.shape)
 \* index-map operations only move input ids around (0 / the constant fill aside)
 InputIds(c) == UNION {{100 * (k - 1) + j : j \in 1..100} : k \in 1..8}
 IndexMapOps == {"reshape", "transpose", "T", "moveaxis", "swapaxes", "squeeze", "expand_dims", "flip", "rot90", "roll",
-                "take", "shuffle", "repeat", "tile", "broadcast_to", "tril", "triu", "concatenate", "stack", "block1", "block2"}
+                "take", "shuffle", "repeat", "tile", "broadcast_to", "tril", "triu", "concatenate", "stack", "block1", "block2",
+                "block3", "expand_dims_t", "squeeze_t", "atleast"}
 OnlyInputCells == (IsOp /\ ~exp.err /\ (case.op \in IndexMapOps \/ (case.op = "pad" /\ ~IsStat(case.mode)))) =>
                     \A j \in DOMAIN exp.cells : exp.cells[j] \in {0, 7} \cup 1..800
 
 \* rearrangements are bijections on the cells
-BijectiveOps == {"reshape", "transpose", "T", "moveaxis", "swapaxes", "squeeze", "expand_dims", "flip", "rot90", "roll"}
+BijectiveOps == {"reshape", "transpose", "T", "moveaxis", "swapaxes", "squeeze", "expand_dims", "flip", "rot90", "roll",
+                 "expand_dims_t", "squeeze_t", "atleast"}
 Bijective == (IsOp /\ ~exp.err /\ case.op \in BijectiveOps) =>
                /\ Len(exp.cells) = Size(case.shape)
                /\ {exp.cells[j] : j \in DOMAIN exp.cells} = 1..Size(case.shape)
 
 \* joins keep every input cell exactly once
-JoinOps == {"concatenate", "stack", "block1", "block2"}
+JoinOps == {"concatenate", "stack", "block1", "block2", "block3"}
 JoinKeepsAll == (IsOp /\ ~exp.err /\ case.op \in JoinOps) =>
-                  LET shapes == IF case.op = "block2" THEN FlattenSeq(case.rows) ELSE case.shapes
+                  LET shapes == IF case.op = "block2" THEN FlattenSeq(case.rows)
+                                ELSE IF case.op = "block3" THEN FlattenSeq(FlattenSeq(case.planes)) ELSE case.shapes
                       ids == UNION {{100 * (k - 1) + j : j \in 1..Size(shapes[k])} : k \in DOMAIN shapes}
                   IN /\ Len(exp.cells) = Cardinality(ids)
                      /\ {exp.cells[j] : j \in DOMAIN exp.cells} = ids
@@ -226,6 +245,15 @@ RelStructure == (IsOp /\ case.op = "shuffle" /\ "achunks" \in DOMAIN case) =>
          /\ case.groups[b][1] = Offset(case.achunks, b)
          /\ case.groups[b][Len(case.groups[b])] = Offset(case.achunks, b) + case.achunks[b] - 1
 RelNotIdentity == \A c \in Comps(4) : (\E b \in DOMAIN c : c[b] >= 3) => \E G \in NearId(c) : G # IdGroups(c) /\ FlattenSeq(G) # Iota(4)
+
+\* rank-changing arguments: the rank of the result is what the arguments say, whatever their values
+RankOK == (IsOp /\ ~exp.err) =>
+   /\ (case.op = "tile" => Len(exp.shape) = (IF Len(case.reps) > Len(case.shape) THEN Len(case.reps) ELSE Len(case.shape)))
+   /\ (case.op = "broadcast_to" => Len(exp.shape) = Len(case.tgt))
+   /\ (case.op = "expand_dims_t" => Len(exp.shape) = Len(case.shape) + Len(case.axs))
+   /\ (case.op = "atleast" => Len(exp.shape) = (IF case.k > Len(case.shape) THEN case.k ELSE Len(case.shape)))
+   /\ (case.op = "block3" => Len(exp.shape) >= 3)
+   /\ (case.op = "block2" => Len(exp.shape) >= 2)
 
 \* every chunking handed to the harness is a valid chunking of its shape
 ChunkingsValid == case.op = "chunkings" => \A j \in DOMAIN exp.all : ValidChunks(case.shape, exp.all[j])
